@@ -25,32 +25,50 @@ MustKinds == {"iface", "generic", "grouped", "embed-std", "embed-local", "embed-
               "tag-on", "shadowed-by-local", "struct-shadowed-by-local-iface-plus-iface"}
 \* no package-level interface of that name exists in an included file: nothing to mock, must not crash
 NoneKinds == {"struct", "functype", "local", "local-blank", "blank", "local-in-lit", "local-in-method",
-              "local-in-generic-func", "local-shadows-struct", "tag-off", "ignored-file", "test-file", "init-funcs"}
-\* package-level, interface-like, but whether it is mockable is not this property's question
-MayKinds == {"inst", "alias", "constraint"}
+              "local-in-generic-func", "local-shadows-struct", "tag-off", "ignored-file", "test-file", "init-funcs",
+              \* aliases and defined types whose right-hand side is not an interface type
+              "alias-struct-lit", "alias-func", "alias-pointer", "alias-map", "alias-chan-of-iface", "alias-slice-inst",
+              "alias-basic", "alias-struct-inst", "defined-over-struct-inst"}
+\* package-level, denotes an interface type, but is an ALIAS (of an interface literal, of an instantiated generic
+\* interface, of another alias, of a foreign or predeclared interface) or a defined type over such a type, or a
+\* constraint interface: whether mockery mocks it is not this property's question -- that it neither crashes on it
+\* nor fails the run is
+MayKinds == {"inst", "alias", "constraint",
+             "alias-iface-lit", "alias-embed-lit", "alias-inst", "alias-inst2", "alias-of-alias", "alias-foreign-iface",
+             "alias-any", "alias-error", "defined-over-foreign-iface", "defined-over-local-iface"}
 Kinds == MustKinds \cup NoneKinds \cup MayKinds
 
 \* kinds that involve a function-local type declaration (defect D7 lived here)
 LocalKinds == {"local", "local-blank", "local-in-lit", "local-in-method", "local-in-generic-func", "local-shadows-struct",
                "shadowed-by-local", "struct-shadowed-by-local-iface-plus-iface"}
 
+AliasKinds == {"alias", "alias-iface-lit", "alias-embed-lit", "alias-inst", "alias-inst2", "alias-of-alias", "alias-foreign-iface",
+               "alias-any", "alias-error", "alias-struct-lit", "alias-func", "alias-pointer", "alias-map", "alias-chan-of-iface",
+               "alias-slice-inst", "alias-basic", "alias-struct-inst"}
+
 GoModSpellings == {"plain", "tab", "quoted", "comment", "block", "block-comment", "crlf"}
 Layouts == {"sep", "inpkg"}
+\* how the package's interfaces are selected: all: true / the must-declarations listed by name / only the anchor
+\* listed (the unusual declarations are in the package but NOT selected: they are still parsed)
+Selects == {"all", "named", "none"}
 PkgShapes == {"only-test-files", "no-interfaces", "all-files-tagged-off", "only-ignored-files", "doc-only-file"}
 
-SeqsUpTo(n) == UNION {[1..k -> Kinds] : k \in 1..n}
-DeclWorlds == {[kind |-> "decls", decls |-> d, spelling |-> "plain", layout |-> "sep", shape |-> "-", ctx |-> "-"] : d \in SeqsUpTo(MaxLen)}
+\* every single kind under every selection mode; longer sequences under all: true
+DeclWorlds == {[kind |-> "decls", decls |-> d, select |-> x, spelling |-> "plain", layout |-> "sep", shape |-> "-", ctx |-> "-"] :
+                 d \in [1..1 -> Kinds], x \in Selects}
+              \cup {[kind |-> "decls", decls |-> d, select |-> "all", spelling |-> "plain", layout |-> "sep", shape |-> "-", ctx |-> "-"] :
+                      d \in UNION {[1..k -> Kinds] : k \in 2..MaxLen}}
 RandomDeclWorlds == IF NRandom = 0 THEN {}
-                    ELSE {[kind |-> "decls", decls |-> d, spelling |-> "plain", layout |-> "sep", shape |-> "-", ctx |-> "-"] :
-                            d \in RandomSubset(NRandom, [1..RandomLen -> Kinds])}
-GoModWorlds == {[kind |-> "gomod", decls |-> <<"iface">>, spelling |-> s, layout |-> l, shape |-> "-", ctx |-> "-"] :
+                    ELSE {[kind |-> "decls", decls |-> d, select |-> RandomElement(Selects), spelling |-> "plain", layout |-> "sep",
+                           shape |-> "-", ctx |-> "-"] : d \in RandomSubset(NRandom, [1..RandomLen -> Kinds])}
+GoModWorlds == {[kind |-> "gomod", decls |-> <<"iface">>, select |-> "all", spelling |-> s, layout |-> l, shape |-> "-", ctx |-> "-"] :
                   s \in GoModSpellings, l \in Layouts}
-PkgShapeWorlds == {[kind |-> "pkgshape", decls |-> <<>>, spelling |-> "plain", layout |-> "sep", shape |-> s, ctx |-> x] :
+PkgShapeWorlds == {[kind |-> "pkgshape", decls |-> <<>>, select |-> "all", spelling |-> "plain", layout |-> "sep", shape |-> s, ctx |-> x] :
                      s \in PkgShapes, x \in {"alone", "among"}}
 Worlds == DeclWorlds \cup RandomDeclWorlds \cup GoModWorlds \cup PkgShapeWorlds
 
 \* CONTRACT: a valid world succeeds, and every must-declaration is mocked (1-based positions in decls)
-MustPositions(wd) == {i \in 1..Len(wd.decls) : wd.decls[i] \in MustKinds}
+MustPositions(wd) == IF wd.select = "none" THEN {} ELSE {i \in 1..Len(wd.decls) : wd.decls[i] \in MustKinds}
 Expectation(wd) == [exit |-> "zero", panic |-> FALSE, must |-> MustPositions(wd),
                     \* a configured package that contributes no interface is not an error
                     anything_written |-> (wd.kind # "pkgshape" \/ wd.ctx = "among")]
@@ -61,5 +79,6 @@ Next == UNCHANGED w
 Spec == Init /\ [][Next]_w
 
 Emit == PrintT(<<"VCASE", ToJson([world |-> w, expect |-> Expectation(w),
-                                  has_local |-> (\E i \in 1..Len(w.decls) : w.decls[i] \in LocalKinds)])>>)
+                                  has_local |-> (\E i \in 1..Len(w.decls) : w.decls[i] \in LocalKinds),
+                                  has_alias |-> (\E i \in 1..Len(w.decls) : w.decls[i] \in AliasKinds)])>>)
 =============================================================================
